@@ -71,3 +71,13 @@ pub assume_specification<'a>[ <String as PartialEq<&'a str>>::ne ](a: &String, b
 pub assume_specification[ usize::ilog10 ](n: usize) -> (r: u32)
     requires n > 0,
     ensures r <= 19;
+// str::find / str::rfind: "Returns the byte index of the first / last character of this string slice that matches the pattern."
+pub uninterp spec fn str_find_spec(s: Seq<char>, pat: Seq<char>) -> Option<usize>;
+pub uninterp spec fn str_rfind_spec(s: Seq<char>, pat: Seq<char>) -> Option<usize>;
+#[verifier::allow(undeclared_external_trait)]
+pub assume_specification<P: Pattern>[ str::find::<P> ](s: &str, pat: P) -> (r: Option<usize>)
+    ensures r == str_find_spec(s@, pat_view(pat)), r matches Some(i) ==> i < s.spec_bytes().len();
+#[verifier::allow(undeclared_external_trait)]
+pub assume_specification<P: Pattern>[ str::rfind::<P> ](s: &str, pat: P) -> (r: Option<usize>)
+    where for<'a> P::Searcher<'a>: std::str::pattern::ReverseSearcher<'a>
+    ensures r == str_rfind_spec(s@, pat_view(pat)), r matches Some(i) ==> i < s.spec_bytes().len();
